@@ -108,6 +108,7 @@ type State struct {
 	expectBlocked bool
 	autoSched bool
 	inSelect  bool
+	auxN      int
 	sch       sched
 }
 
@@ -445,6 +446,21 @@ func (st *State) newInput(kind string, w int) *term.T {
 	if st.model != nil {
 		if _, ok := st.model[name]; !ok {
 			// extend the model: fresh unconstrained variable can take any value
+			st.model[name] = 0
+		}
+	}
+	return term.NewVar(name, w)
+}
+
+// newAux returns a fresh unconstrained variable that is not a harness input (it models a
+// value the VM does not track, e.g. the bit pattern of an opaque float); it never appears
+// in replay vectors.
+func (st *State) newAux(w int) *term.T {
+	st.auxN++
+	name := fmt.Sprintf("aux%d_%d", st.auxN, w)
+	st.vars[name] = w
+	if st.model != nil {
+		if _, ok := st.model[name]; !ok {
 			st.model[name] = 0
 		}
 	}
